@@ -93,6 +93,40 @@ theorem C14_equiv_precancelled_counterexample : ¬ C14_equiv_precancelled_statem
   rw [h .jsonLines [0] (fun _ => false) ⟨0, 0⟩ (some 0), h2] at h1
   simp at h1
 
+/-- **A context cancelled before `Run`, decoders that look at the context** (uri, uripost, raw: `Scan` checks
+`ctx.Err()` before every line): both modes deliver nothing and `Run` returns context.Canceled — streaming from the
+first check of runFullScan, preload because `LoadAmmo` fails with that error before anything is loaded. -/
+theorem C14_precancelled_lines (k : Fmt) (hk : scanChecksCtx k = true) (preload : Bool) (file : List α)
+    (chosen : α → Bool) (b : Bounds) :
+    runWith k preload file chosen b (some 0) = some ⟨[], .canceled, true⟩ := by
+  have key : ∀ fuel, runFuel k preload file chosen b (some 0) (fuel + 1) = some ⟨[], .canceled, true⟩ := by
+    intro fuel
+    cases preload with
+    | true => simp [runFuel, loadSeesCancel, hk, cancelled]
+    | false =>
+      cases k <;> simp [scanChecksCtx] at hk <;>
+        simp [runFuel, loadSeesCancel, httpRun, fullScan, cancelled]
+  obtain ⟨m, hm⟩ : ∃ m, fuelOf file.length (file.filter chosen).length b (some 0) = some (m + 1) := by
+    unfold fuelOf
+    split
+    · exact ⟨file.length + 2, rfl⟩
+    · cases hT : target b.limit b.passes (file.filter chosen).length (some 0) with
+      | none => exact absurd hT (target_some_ne_none _ _ _ _)
+      | some t => exact ⟨(t / (file.filter chosen).length + 1) * (file.length + 1) + 1, by simp [fuelFor]⟩
+  unfold runWith
+  rw [hm]
+  exact key m
+
+/-- so for these three formats the equivalence holds for EVERY cancellation point, the one before `Run` included
+(the part of `C14_equiv_precancelled_statement` that is true beyond `C14_equiv`; for http/json it is false). -/
+theorem C14_equiv_precancelled_lines (k : Fmt) (hk : scanChecksCtx k = true) (file : List α) (chosen : α → Bool)
+    (b : Bounds) (cancelAt : Option Nat) :
+    runWith k false file chosen b cancelAt = runWith k true file chosen b cancelAt := by
+  by_cases hc : cancelAt = some 0
+  · subst hc
+    rw [C14_precancelled_lines k hk false, C14_precancelled_lines k hk true]
+  · exact C14_equiv k file chosen b cancelAt hc
+
 /-- … and the equality is never the vacuous `none = none` for a run that has a reason to end: with a limit, with
 passes, with a cancellation, or with nothing chosen, both modes END (within the model's fuel). -/
 theorem C14_equiv_ends (k : Fmt) (preload : Bool) (file : List α) (chosen : α → Bool) (b : Bounds)
@@ -408,6 +442,26 @@ theorem C14_headers_delivered (k : Fmt) (preload : Bool) (s : Source) (cases : L
     simpa [isChosenH, h2] using hch
   exact (isChosen_iff_mem cases hcs ⟨i, t⟩).mp this
 
+/-- … hence the Host / headers text the harness reads off a delivered ammo is the one the Spec expects for its entry
+(`Drv.C14.ehdrOf`, what `Spec.C14.hdOk` compares the real providers with). -/
+theorem C14_headers_text (k : Fmt) (preload : Bool) (s : Source) (cases : List String) (b : Bounds)
+    (cancelAt : Option Nat) (hc : cancelAt ≠ some 0) (o : Outcome EntryH)
+    (h : runH k preload s cases b cancelAt = some o) :
+    ∀ e ∈ o.delivered, (Drv.C14.ehdrOf k s)[e.id]? = some (render (reqOf k e)) := by
+  intro e he
+  obtain ⟨i, t, ht, rfl, _⟩ := C14_headers_delivered k preload s cases b cancelAt hc o h e he
+  have hi : i < s.tags.length := by
+    cases hlt : decide (i < s.tags.length) with
+    | true => exact of_decide_eq_true hlt
+    | false =>
+      have : s.tags[i]? = none := List.getElem?_eq_none (by simpa using hlt)
+      rw [this] at ht; cases ht
+  have hid : (entryOf k s i t).id = i := by cases k <;> rfl
+  rw [hid]
+  unfold Drv.C14.ehdrOf
+  rw [List.getElem?_map, List.getElem?_range hi]
+  simp [reqText, ht]
+
 /-- **the uri / uripost decoder with its header accumulator refines the abstract decoder**: `Provider.Run` over
 `scanLines` (header lines Set on the accumulator, an entry gets a clone completed from the `headers` option, the
 accumulator is replaced by an empty map when Scan wraps to the next pass) has exactly the outcome of `Provider.Run`
@@ -491,6 +545,29 @@ theorem C14_headers_model_is_source :
   ⟨Bridge.C14.hdr_fresh_source, Bridge.C14.hdr_entry_source, Bridge.C14.hdr_line_source, Bridge.C14.hdr_wrap_source,
    Bridge.C14.hdr_json_source, Bridge.C14.hdr_enrich_source⟩
 
+/-- **the decoders' pass / limit / end-of-ammo logic is the source**: the limit check that opens every `Scan`, the
+block that ends a pass in uri.go, uripost.go, raw.go (count the pass, ErrPassLimit, ErrNoAmmo, seek) and the top check
+and end-of-file block of the http/json stream decoder, regenerated statement by statement (area "c14hdr"), are one
+round of `Model.C08.scanStream` — the decoder machines that every theorem above is about — and of `scanLines`. -/
+theorem C14_scan_model_is_source :
+    (∀ style b n d, scanStream style b n d =
+      if Gen.C14Hdr.uriScanLimit b.limit d.ammoNum then (.errLimit, d) else scanLoop style b.passes n 2 d) ∧
+    (∀ passes n fuel (d : Dec), scanLoop .eofCheck passes n (fuel + 1) d =
+      if d.pos < n then (.ammo d.pos, { d with pos := d.pos + 1, ammoNum := d.ammoNum + 1 })
+      else match Gen.C14Hdr.uriEof passes d.ammoNum d.passNum with
+        | .ret r pn => (r, { d with passNum := pn })
+        | .again pn => scanLoop .eofCheck passes n fuel { d with passNum := pn, pos := 0 }) ∧
+    (∀ passes n fuel (d : Dec), scanLoop .topCheck passes n (fuel + 1) d =
+      if Gen.C14Hdr.jsonTopCheck passes d.passNum then (.errPass, d)
+      else if d.pos < n then (.ammo d.pos, { d with pos := d.pos + 1, ammoNum := d.ammoNum + 1 })
+      else match Gen.C14Hdr.jsonEof passes d.ammoNum d.passNum with
+        | .ret r pn => (r, { d with passNum := pn })
+        | .again pn => scanLoop .topCheck passes n fuel { d with pos := 0, passNum := pn }) ∧
+    (Gen.C14Hdr.uripostEof = Gen.C14Hdr.uriEof ∧ Gen.C14Hdr.rawEof = Gen.C14Hdr.uriEof ∧
+      Gen.C14Hdr.uripostScanLimit = Gen.C14Hdr.uriScanLimit ∧ Gen.C14Hdr.rawScanLimit = Gen.C14Hdr.uriScanLimit ∧
+      Gen.C14Hdr.jsonScanLimit = Gen.C14Hdr.uriScanLimit) :=
+  ⟨Bridge.C14.scanStream_limit_source, Bridge.C14.scanLoop_eof_source, Bridge.C14.scanLoop_top_source, Bridge.C14.eof_same⟩
+
 /-- the model's two sides of a cell are the same `Side` -/
 theorem C14_model_sides_agree (k : Fmt) (tags cases : List String) (b : Bounds) (cap : Nat) (hcap : 0 < cap) :
     Drv.C14.modelSideOf k true tags cases b cap = Drv.C14.modelSideOf k false tags cases b cap := by
@@ -572,6 +649,9 @@ example : Spec.C14.inconclusive ⟨["t1", "t2", "t3"], ["t2", "t3"], 5, 0, 3⟩ 
 example : Spec.C14.expected 2 1 3 = some 2 ∧ target 2 1 3 none = some 2 := by decide
 example : cyclicPrefix [1, 2] 5 = [1, 2, 1, 2, 1] := by decide
 
+-- C14_precancelled_lines: raw, nothing chosen, preload; its hypothesis; http/json differs (the counterexample above)
+example : (runWith .raw true [0, 1] (fun _ => false) ⟨0, 0⟩ (some 0)).map (fun o => (o.delivered, o.run)) = some ([], .canceled) ∧
+    scanChecksCtx .raw = true ∧ scanChecksCtx .jsonArray = false := by decide
 -- round 2: a uri source `[X-A: 1]`, `/e0 a`, `[x-a: 2]`, `/e1 b`, `[X-B: z]` with `headers: [X-C: c]`, two passes:
 -- the header redeclared between the entries reaches only /e1, the trailing one nobody, on both passes, in both modes
 example : (Model.C14H.runH .uri true ⟨["a", "b"], [[("X-A", "1")], [("x-a", "2")], [("X-B", "z")]], [("X-C", "c")]⟩ [] ⟨0, 2⟩ none).map
